@@ -82,6 +82,19 @@ def _strip_shape(t):
     return t
 
 
+def _reduction_body(t):
+    """the reduction behind a result, shape-only indexing stripped and spelt as a method:
+    np.mean(x, axis=1, keepdims=True)  ==  x.mean(axis=1)[:, None]"""
+    body = _strip_shape(t)
+    if body[0] == 'call' and body[1] in ('numpy.mean', 'numpy.sum', 'numpy.median', 'numpy.max', 'numpy.min',
+                                         'numpy.nanmean', 'numpy.std') and len(body[2]) == 1:
+        body = ('meth', body[1].split('.')[-1], body[2][0], (),
+                tuple((k_, v_) for k_, v_ in body[3] if not (k_ == 'keepdims' and v_ in (C(True), C(False)))))
+    elif body[0] == 'meth' and dict(body[4]).get('keepdims') in (C(True), C(False)):
+        body = body[:4] + (tuple((k_, v_) for k_, v_ in body[4] if k_ != 'keepdims'),)
+    return body
+
+
 def rule_mask_algebra(ctx, rid):
     P = ctx.P
     fi = P.func(GNIM)
@@ -108,7 +121,7 @@ def rule_mask_algebra(ctx, rid):
             problems['mean'] = 'unexpected return %s' % show(v)[:60]
             continue
         imf, flag = v[1]
-        body = _strip_shape(imf)
+        body = _reduction_body(imf)
         if not (body[0] == 'meth' and body[1] == 'mean' and dict(body[4]).get('axis') == C(1)):
             problems['mean'] = 'result is %s(...)' % (body[1] if body[0] == 'meth' else show(body)[:50])
             continue
@@ -144,14 +157,27 @@ def rule_mask_algebra(ctx, rid):
             continue
         ivar, it, _ = args[3][0]
         a0 = args[2][1][0]
-        if not (it == ('call', 'builtins.range', (S('nphases'),), ())):
+        by_columns = it[0] == 'attr' and it[2] == 'T' and _strip_shape(a0) == ivar
+        if by_columns:
+            # the members run over the columns of the masked signal matrix: for col in (X + M).T -> col[:, None]
+            # (one member per mask column; the mask matrix has nphases columns, checked with the mask formula below)
+            try:
+                rest_ = alg.poly(it[1]) - X
+            except Exception:
+                rest_ = None
+            if rest_ is None or rest_ != alg.poly(M):
+                problems['remove'] = 'the matrix whose columns are sifted is %s, not X + the mask matrix removed afterwards' \
+                    % show(it[1])[:60]
+        elif not (it == ('call', 'builtins.range', (S('nphases'),), ())):
             problems['nmembers'] = 'members are generated over %s' % show(it)[:40]
         # a0 = X + M2[:, ii, newaxis]
-        p = alg.poly(a0)
+        p = alg.poly(a0) if not by_columns else X
         rest = p - X
-        sm = rest.single_monomial()
+        sm = rest.single_monomial() if not by_columns else None
         added = None
-        if sm is not None and sm[1] == 1 and len(sm[0]) == 1:
+        if by_columns:
+            added = ('sub', M, ('tuple', (('slice', C(None), C(None), C(None)), ivar)))
+        elif sm is not None and sm[1] == 1 and len(sm[0]) == 1:
             added = alg.atom_terms.get(sm[0][0][0])
         if added is None:
             # the mask column may itself be arithmetic: find M2 structurally
@@ -424,7 +450,7 @@ def rule_amplitude(ctx, rid):
     for e in exits:
         v = e.value
         if v[0] == 'tuple':
-            body = _strip_shape(v[1][0])
+            body = _reduction_body(v[1][0])
             if body[0] == 'meth' and body[2][0] == 'bin':
                 M = body[2][3]
                 z = alg.poly(substitute(M, {S('amp'): C(0)}))
